@@ -429,6 +429,11 @@ func (s *c08State) insert(t *rapid.T, k c08Key) {
 		keyName = variant
 	}
 	ck := s.prodKey(keyName, k)
+	for _, o := range s.sortedKeys() {
+		if o != k && s.model[o].CacheKey == ck {
+			t.Fatalf("cache key %q of %v (asked as %q) is also the key of the cached %v: answers of different name/type/scope share one slot", ck, k, keyName, o)
+		}
+	}
 
 	eff := int64(ttl)
 	if eff > 31536000 { // documented clamp in NormalizeAndCacheDnsResp_
